@@ -150,7 +150,7 @@ pub fn main(dir: &str, seed: u64) -> (i32, Value) {
         let mut data = vec![0u8; 300_000 + (seed % 1000) as usize];
         r.fill(&mut data);
         let big = { let mut b = vec![0u8; MIB + MIB / 2 + 17]; r.fill(&mut b); b };
-        let base = std::path::Path::new(dir).join("kinds");
+        let base = std::fs::canonicalize(dir).unwrap_or_else(|_| std::path::PathBuf::from(dir)).join("kinds");
         let _ = std::fs::remove_dir_all(&base);
         std::fs::create_dir_all(base.join("sub/deeper")).expect("scratch dir");
         let target = base.join("target.bin");
@@ -181,6 +181,11 @@ pub fn main(dir: &str, seed: u64) -> (i32, Value) {
             cases.push(("unlinked file through /dev/fd/N".into(), std::path::PathBuf::from(format!("/dev/fd/{}", keep.as_raw_fd())), want_big.clone()));
         }
         for (what, p, want) in &cases {
+            // the platform's own view decides whether the case exists here (e.g. no /dev/fd in a minimal container)
+            match std::fs::read(p) {
+                Ok(b) if render::<tlsh::Tlsh>(&tlsh::hash_buf(&b)) == *want => {}
+                _ => continue,
+            }
             checks += 1;
             kinds_hit += 1;
             let got = show(p);
@@ -191,7 +196,7 @@ pub fn main(dir: &str, seed: u64) -> (i32, Value) {
         }
         drop(keep);
         // a pipe (not seekable, no size) reached through its descriptor, fed by another thread in odd-sized writes
-        if let Ok((rd, mut wr)) = std::io::pipe() {
+        if let (Ok((rd, mut wr)), true) = (std::io::pipe(), std::path::Path::new("/proc/self/fd/0").parent().map(|d| d.is_dir()).unwrap_or(false)) {
             use std::os::fd::AsRawFd;
             let p = std::path::PathBuf::from(format!("/proc/self/fd/{}", rd.as_raw_fd()));
             let src = big.clone();
@@ -220,6 +225,9 @@ pub fn main(dir: &str, seed: u64) -> (i32, Value) {
         // relative paths (this probe is its own process: changing the working directory affects nobody else)
         if std::env::set_current_dir(base.join("sub")).is_ok() {
             for rel in ["../target.bin", "deeper/../../link2", "./../target.bin"] {
+                if std::fs::read(rel).ok().as_deref() != Some(&data[..]) {
+                    continue;
+                }
                 checks += 1;
                 kinds_hit += 1;
                 let got = show(std::path::Path::new(rel));
@@ -235,6 +243,9 @@ pub fn main(dir: &str, seed: u64) -> (i32, Value) {
         let _ = std::os::unix::fs::symlink("loop_b", base.join("loop_a"));
         let _ = std::os::unix::fs::symlink("loop_a", base.join("loop_b"));
         for (what, p) in [("dangling symlink", base.join("dangling")), ("symlink loop", base.join("loop_a")), ("file used as a directory", base.join("target.bin/x")), ("empty path", std::path::PathBuf::new())] {
+            if std::fs::read(&p).is_ok() {
+                continue;
+            }
             checks += 1;
             kinds_hit += 1;
             let got = show(&p);
